@@ -323,4 +323,6 @@ func checkC12(c *Ctx) {
 		})
 	}
 	c.Exhaustive = true
+	// the same with the shipped binary as a real process (SIGKILL, restart, replay_operations_log)
+	c.RunPartInChild("c12proc", "C12/real-binary-part-died")
 }
